@@ -158,6 +158,11 @@ fn run_case(seed: u64, idx: u64, _tier: Tier, out: &mut CaseOut) {
     }
     let mut cfg = Cfg::new(any_deco(&mut rng));
     layout_opts(&mut rng, &mut cfg, w);
+    if rng.chance(1, 10) {
+        // no minimum at all: a prefixed block may be left with zero columns
+        cfg.min_wrap = Some(0);
+        out.inc("cfg:min_wrap_0");
+    }
     if cfg.footnotes_on() && crate::ast::has_tag(&doc, "a") {
         out.inc("footnote_docs");
     }
